@@ -77,8 +77,8 @@ def run(ctx):
            "security": ["NONE", "TYPE1", "TYPE2", "NON", "TYPE", "1", "OFXSGML", "USASCII"],
            "encoding": ["USASCII", "UNICODE", "UTF-8", "UTF8", "LATIN1", "ASCII", "UNI", "U", "NONE", "1252"],
            "charset": ["ISO-8859-1", "1252", "NONE", "UTF-8", "8859-1", "ISO", "125", "2", "USASCII", "UNICODE"],
-           "compression": ["NONE", "GZIP", "N", "NON", "ONE", "O", "USASCII", "TYPE1"], "ofxheader": ["100", "200", "101", "x", "0", "00", "000", "1", "99", "201", "0100", "0200"],
-           "version": ["102", "103", "151", "160", "199", "100", "1020", "1x", "200", "203", "220", "204", "221", "2030", "0", "000", "0102"],
+           "compression": ["NONE", "GZIP", "N", "NON", "ONE", "O", "USASCII", "TYPE1"], "ofxheader": ["100", "200", "101", "x", "0", "00", "000", "1", "99", "201", "0100", "0200", "1_00", "2_00", "10_0", "+100", " 100", "1e2"],
+           "version": ["102", "103", "151", "160", "199", "100", "1020", "1x", "200", "203", "220", "204", "221", "2030", "0", "000", "0102", "1_02", "10_2", "2_2_0", "2_03", "+102", "1 02", "2e2"],
            "oldfileuid": ["NONE", "a" * 36, "a" * 37], "newfileuid": ["NONE", "z" * 36, "z" * 37]}
     for kind, base in ((1, base1), (2, base2)):
         for fld in base:
